@@ -114,7 +114,7 @@ pub fn gen_image<C: ImgCol>(d: &mut Dec, r: i32, max: u32) -> ImageItem {
     for i in 0..n {
         data.push(match mode {
             0 => d.u(0, 255) as u8,
-            1 => (i as u32).wrapping_mul(37).wrapping_add(x) as u8,
+            1 => (i as u32).wrapping_mul(37).wrapping_add((i as u32 >> 8).wrapping_mul(7)).wrapping_add(x) as u8,
             _ => {
                 x ^= x << 13;
                 x ^= x >> 17;
